@@ -16,7 +16,7 @@
   "s4": "none",
   "step": "S5 probe: review, no prompt appears"
  },
- "detail": "C13/C04: session ['--inline-snapshot=review'] env={} stdin=b'n\\n' approved no trim but: ['- .inline-snapshot/external/05b3abbe1b70c70ad2fab77dc3eb83b9b368dc88d2e45fac67329e34623e7c4d.png (deleted)']\ntest_e.py \u001b[32m.\u001b[0m\u001b[32m                                                              [100%]\u001b[0m\n\n\u2550\u2550\u2550\u2550\u2550\u2550\u2550\u2550\u2550\u2550\u2550\u2550\u2550\u2550\u2550\u2550\u2550\u2550\u2550\u2550\u2550\u2550\u2550\u2550\u2550\u2550\u2550\u2550\u2550\u2550\u2550 inline-snapshot \u2550\u2550\u2550\u2550\u2550\u2550\u2550\u2550\u2550\u2550\u2550\u2550\u2550\u2550\u2550\u2550\u2550\u2550\u2550\u2550\u2550\u2550\u2550\u2550\u2550\u2550\u2550\u2550\u2550\u2550\u2550\u2550\nremoved 1 unused externals\n\n\n\n==================================== PASSES ====================================\n------------ generated xml file: /tmp/bsess-out-eyfi7k4z/junit.xml -------------\n\u001b[36m\u001b[1m=========================== short test summary info ============================\u001b[0m\n\u001b[32mPASSED\u001b[0m test_e.py::\u001b[1mtest_ext\u001b[0m\n\u001b[32m============================== \u001b[32m\u001b[1m1 passed\u001b[0m\u001b[32m in 1.15s\u001b[0m\u001b[32m ===============================\u001b[0m"
+ "detail": "C13/C04: session ['--inline-snapshot=review'] env={} stdin=b'n\\n' approved no trim but: ['- .inline-snapshot/external/05b3abbe1b70c70ad2fab77dc3eb83b9b368dc88d2e45fac67329e34623e7c4d.png (deleted)']\ntest_e.py \u001b[32m.\u001b[0m\u001b[32m                                                              [100%]\u001b[0m\n\n\u2550\u2550\u2550\u2550\u2550\u2550\u2550\u2550\u2550\u2550\u2550\u2550\u2550\u2550\u2550\u2550\u2550\u2550\u2550\u2550\u2550\u2550\u2550\u2550\u2550\u2550\u2550\u2550\u2550\u2550\u2550 inline-snapshot \u2550\u2550\u2550\u2550\u2550\u2550\u2550\u2550\u2550\u2550\u2550\u2550\u2550\u2550\u2550\u2550\u2550\u2550\u2550\u2550\u2550\u2550\u2550\u2550\u2550\u2550\u2550\u2550\u2550\u2550\u2550\u2550\nremoved 1 unused externals\n\n\n\n==================================== PASSES ====================================\n------------ generated xml file: /tmp/bsess-out-zhqu3um4/junit.xml -------------\n\u001b[36m\u001b[1m=========================== short test summary info ============================\u001b[0m\n\u001b[32mPASSED\u001b[0m test_e.py::\u001b[1mtest_ext\u001b[0m\n\u001b[32m============================== \u001b[32m\u001b[1m1 passed\u001b[0m\u001b[32m in 4.48s\u001b[0m\u001b[32m ===============================\u001b[0m"
 }
 """
 
